@@ -33,7 +33,7 @@ PKG = {"a": "pa", "b": "pb"}
 STUB = "celery"               # a name on beartype's list of decorator-hostile packages
 RESULT_TAG = "C16RESULT "
 
-ALL_CONFS = ["default", "vt", "nopep", "ffirst", "flast", "tfirst"]
+ALL_CONFS = ["default", "vt", "nopep", "ffirst", "flast", "tfirst", "tlbdh"]
 # the concretiser: configuration name of PycCache.tla -> BeartypeConf keyword arguments
 CONF_KW = {
     "default": {},
@@ -42,14 +42,22 @@ CONF_KW = {
     "ffirst": {"claw_decor_place_func": "FIRST"},
     "flast": {"claw_decor_place_func": "LAST"},
     "tfirst": {"claw_decor_place_type": "FIRST"},
+    "tlbdh": {"claw_decor_place_type": "LAST_BEFORE_DECOR_HOSTILE"},
 }
 PLACE_ABBR = {"LAST_BEFORE_DECOR_HOSTILE": "LBDH", "FIRST": "FIRST", "LAST": "LAST"}
 PLACE_FULL = {v: k for k, v in PLACE_ABBR.items()}
 NOKEY = {"p526": False, "pf": "-", "pt": "-", "dflt": False}
 PLAIN_BODY = {"hooked": False, "key": dict(NOKEY)}
 
+# stand-in for a package on beartype's list of decorator-hostile decorators (celery.Celery.task):
+# what it returns hides the decorated object behind something with other annotations
 STUB_SRC = '''class Celery:
     def task(self, fn):
+        if isinstance(fn, type):
+            def n(self, x):
+                return x
+            n.__annotations__ = {'x': int}
+            return type(fn.__name__, (fn,), {'n': n})
         def t(x: str):
             return fn(x)
         return t
@@ -59,7 +67,8 @@ STUB_SRC = '''class Celery:
 #   g       annotated function                  -> "is the module hooked at all", violation type
 #   assign  PEP 526 assignment in a function    -> claw_is_pep526
 #   h       two decorators, the upper one "decorator-hostile" -> the three claw_decor_place_func
-#   C       class decorator adding an annotated method        -> claw_decor_place_type
+#   C       two class decorators, each adding an annotated method, the upper one
+#           "decorator-hostile"                               -> the three claw_decor_place_type
 MOD_SRC = '''VERSION = @VER@
 from celery import Celery
 app = Celery()
@@ -79,6 +88,7 @@ def g(x: int) -> int:
 @deco
 def h(x: int):
     return x
+@app.task
 @addm
 class C:
     pass
@@ -134,9 +144,9 @@ def project_code(code):
     oh = _decor_order(code, "h", ("task", "deco"))
     if oh is not None and "__beartype__" in oh and len(oh) == 3:
         key["pf"] = ("LAST", "LBDH", "FIRST")[oh.index("__beartype__")]
-    oc = _decor_order(code, "C", ("addm",))
-    if oc is not None and "__beartype__" in oc and len(oc) == 2:
-        key["pt"] = ("LAST", "FIRST")[oc.index("__beartype__")]
+    oc = _decor_order(code, "C", ("task", "addm"))
+    if oc is not None and "__beartype__" in oc and len(oc) == 3:
+        key["pt"] = ("LAST", "LBDH", "FIRST")[oc.index("__beartype__")]
     return {"hooked": True, "key": key}
 
 
@@ -163,8 +173,9 @@ def behaviour_key(b):
         return {"hooked": False, "key": dict(NOKEY)}
     h1, hs = b.get("h1"), b.get("hs")
     pf = "LAST" if h1 and not hs else "FIRST" if hs and not h1 else "LBDH" if not h1 and not hs else "?"
-    return {"hooked": True, "key": {"p526": b.get("assign") is not None, "pf": pf,
-                                    "pt": "LAST" if b.get("cm") else "FIRST", "dflt": False}}
+    cm, cn = b.get("cm"), b.get("cn")
+    pt = "LAST" if cn and not cm else "LBDH" if cm and not cn else "FIRST" if not cm and not cn else "?"
+    return {"hooked": True, "key": {"p526": b.get("assign") is not None, "pf": pf, "pt": pt, "dflt": False}}
 
 
 # =====================================================================================
@@ -493,7 +504,8 @@ def _probe(mod):
         except BaseException as ex:      # noqa
             return type(ex).__name__
     return {"ver": getattr(mod, "VERSION", None), "g": r(lambda: mod.g("s")), "assign": r(mod.assign),
-            "h1": r(lambda: mod.h(1)), "hs": r(lambda: mod.h("s")), "cm": r(lambda: mod.C().m("s"))}
+            "h1": r(lambda: mod.h(1)), "hs": r(lambda: mod.h("s")), "cm": r(lambda: mod.C().m("s")),
+            "cn": r(lambda: mod.C().n("s"))}
 
 
 def child_main():
@@ -579,6 +591,7 @@ CONSTANTS
   MaxSrc = %(maxsrc)d
   MaxRuns = %(maxruns)d
   MarkerMode = "%(marker)s"
+  MarkerClasses = %(classes)s
   PatchMode = "%(patch)s"
   Nest = %(nest)s
 %(inv)s
@@ -590,11 +603,12 @@ TRACE_CFG = """SPECIFICATION TSpec
 CONSTANTS
   Modules = {"a", "b", "pa", "pb", %(foreign)s}
   Foreign = {%(foreign)s}
-  Confs = {"default", "vt", "nopep", "ffirst", "flast", "tfirst"}
+  Confs = {"default", "vt", "nopep", "ffirst", "flast", "tfirst", "tlbdh"}
   Threads = {1, 2}
   MaxSrc = 1000
   MaxRuns = 1000000
   MarkerMode = "%(marker)s"
+  MarkerClasses = %(classes)s
   PatchMode = "%(patch)s"
   Nest = TRUE
 CONSTRAINT Reached
@@ -608,10 +622,15 @@ def _set(items):
     return "{" + ", ".join(('"%s"' % i) if isinstance(i, str) else str(i) for i in items) + "}"
 
 
+def _classes(classes):
+    return "{" + ", ".join(_set(sorted(c)) for c in classes) + "}"
+
+
 def _cfg(d, name, **kw):
     from verifkit.util import write_file
     p = dict(mods=_set(kw["mods"]), confs=_set(kw["confs"]), threads=_set(kw["threads"]), maxsrc=kw.get("maxsrc", 1),
              maxruns=kw.get("maxruns", 1), marker=kw["marker"], patch=kw["patch"],
+             classes=_classes(kw.get("classes") or []),
              nest="TRUE" if kw.get("nest") else "FALSE", inv=kw.get("inv", ALL_INV))
     return write_file(d, name + ".cfg", MAIN_CFG % p)
 
@@ -648,11 +667,13 @@ class Ctx:
         self.ntree = 0
         self.child_runs = 0
         self.marker_mode = None
+        self.classes = []              # observed marker function: configurations grouped by marker string
+        self.stale = []                # StalePairs as computed by TLC for that function
         self.patch_mode = None
         self.thread_aware = False      # the global is assigned, but consulted per thread (see _probe_patch)
         self.tables = None
         self.marker_of_conf = {}       # conf name -> real marker string
-        self.tag_of_marker = {"": {"marked": False, "key": dict(NOKEY)}}
+        self.tag_of_marker = {"": {"marked": False, "id": "-"}}
         self.ref = {}                  # (conf, version) -> behaviour vector on an empty cache
         self.foreign = {STUB: "f1"}
         self.traces = []               # (behaviour description, [event, ...]) for R3
@@ -843,13 +864,13 @@ def _r1_judge(rep, jobs, results):
             rep.add("spec_mutants_killed")
 
 
-def _tables(rep, d):
-    """Want(c) and the file tags per configuration, as computed by TLC from PycCache.tla."""
+def _tables(rep, d, marker="confkey", classes=None, maxruns=0, inv=""):
+    """Want(c), the file tag per configuration and StalePairs, as computed by TLC from PycCache.tla."""
     from verifkit import tlc
     from verifkit.util import write_file
     write_file(d, "MCTables.tla", "---- MODULE MCTables ----\nEXTENDS PycCache, Json\nASSUME PrintT(ToJson(Tables))\n====\n")
-    cfg = _cfg(d, "MCTables", mods=["a"], confs=["default"], threads=[1], maxsrc=1, maxruns=0,
-               marker="confkey", patch="unlocked", nest=False, inv="")
+    cfg = _cfg(d, "MCTables_" + marker, mods=["a"], confs=ALL_CONFS, threads=[1], maxsrc=1, maxruns=maxruns,
+               marker=marker, classes=classes, patch="private", nest=False, inv=inv)
     res = tlc.run_tlc(os.path.join(d, "MCTables.tla"), cfg, workers=1)
     rows = [r for r in res.printed if isinstance(r, dict) and "want" in r]
     return res, rows[0] if rows else None
@@ -934,17 +955,21 @@ def _references(rep, ctx, d, pool):
                             [{"op": "run", "hook": {"a": c}, "order": ["a"]}]}, log))
     if rep.violations:
         return False
-    # marker discipline
+    # marker discipline: the observed function configuration -> marker, as a partition
     mk = {c: ctx.marker_of_conf[c] for c in ALL_CONFS}
-    if len(set(mk.values())) == 1:
-        ctx.marker_mode = "v0230"
-    elif all((mk[c1] == mk[c2]) == (want[c1] == want[c2]) for c1 in ALL_CONFS for c2 in ALL_CONFS):
-        ctx.marker_mode = "confkey"
-    else:
-        rep.machinery(f"marker discipline of the implementation is neither v0230 nor confkey: {mk}")
-    tags = tabs["tag_" + ctx.marker_mode]
+    ctx.marker_mode = "observed"
+    ctx.classes = [sorted(c for c in ALL_CONFS if mk[c] == s) for s in sorted(set(mk.values()))]
+    # one TLC run: tags and StalePairs of that function, and the design-level verdict (two sequential
+    # runs over all configurations): I2 must fail iff StalePairs is non-empty
+    tres2, tabs2 = _tables(rep, d, "observed", ctx.classes, maxruns=2, inv="INVARIANT I2\n")
+    rep.tlc(tres2, f"observed marker function {ctx.classes}: Tables, StalePairs, I2")
+    if tabs2 is None:
+        rep.machinery("PycCache.tla Tables were not emitted for the observed marker function")
     for c in ALL_CONFS:
-        ctx.tag_of_marker[mk[c]] = tags[c]
+        ctx.tag_of_marker[mk[c]] = tabs2["tag"][c]
+    ctx.stale = sorted(tuple(p) for p in tabs2["stale"])
+    if bool(tres2.violated) != bool(ctx.stale) or tres2.violated not in (None, "I2"):
+        rep.machinery(f"PycCache.tla: I2 on the observed marker function is {tres2.violated}, StalePairs = {ctx.stale}")
     # patch discipline
     hooked_p = {patched[c] for c in ALL_CONFS}
     if hooked_p == {True}:
@@ -954,8 +979,8 @@ def _references(rep, ctx, d, pool):
     else:
         rep.machinery(f"patch discipline differs between configurations: {patched}")
     ctx.tables = tabs
-    rep.note(f"implementation under test: MarkerMode={ctx.marker_mode} markers={sorted(set(mk.values()))} "
-             f"PatchMode={ctx.patch_mode}")
+    rep.note(f"implementation under test: observed marker function {dict(zip(sorted(set(mk.values())), ctx.classes))} "
+             f"PatchMode={ctx.patch_mode}; TLC StalePairs = {ctx.stale}")
     return True
 
 
@@ -989,7 +1014,7 @@ def _macro_graph(g):
     return macro
 
 
-def _macro_paths(g, macro, rnd, limit):
+def _macro_paths(g, macro, rnd, limit, stale=()):
     """all run sequences (maximal macro paths, trailing/leading edits trimmed); a seeded sample
     that still covers every (first run, edit?, second run) prefix when there are more than limit."""
     init = g.init[0]
@@ -1016,6 +1041,19 @@ def _macro_paths(g, macro, rnd, limit):
     total = len(paths)
     if limit is not None and total > limit:
         rnd.shuffle(paths)
+        # the pairs for which TLC predicts a stale reuse come first: run c1 ; run c2 (no edit)
+        want_pairs = {tuple(p) for p in stale}
+
+        def pair(p):
+            if len(p) >= 2 and p[0][0]["op"] == "run" and p[1][0]["op"] == "run":
+                return (p[0][0]["hook"].get("a"), p[1][0]["hook"].get("a"))
+            return None
+        first = {}
+        for p in paths:
+            if pair(p) in want_pairs:
+                first.setdefault(pair(p), p)
+        head = [first[k] for k in sorted(first)]
+        paths = head + [p for p in paths if all(p is not q for q in head)]
         chosen, seen_prefix, rest = [], set(), []
         for p in paths:
             nruns, k = 0, 0
@@ -1107,14 +1145,14 @@ def _check_run(rep, ctx, beh, ri, r, exp_state, origin):
 
 
 def _seq_configs(tier):
-    return [("seq1", dict(mods=["a"], confs=ALL_CONFS, threads=[1], maxsrc=2, maxruns=3), 130 if tier == "quick" else None),
+    return [("seq1", dict(mods=["a"], confs=ALL_CONFS, threads=[1], maxsrc=2, maxruns=3), 170 if tier == "quick" else None),
             ("seq2", dict(mods=["a", "b"], confs=["default", "nopep"], threads=[1], maxsrc=1 if tier == "quick" else 2,
                           maxruns=2), 30 if tier == "quick" else 500)]
 
 
 def _conc_kw(ctx):
     return dict(mods=["a", "b"], confs=["default", "nopep"], threads=[1, 2], maxsrc=1, maxruns=1,
-                marker=ctx.marker_mode, patch=ctx.patch_mode, nest=False)
+                marker=ctx.marker_mode, classes=ctx.classes, patch=ctx.patch_mode, nest=False)
 
 
 def _launch_tlc(ctx, d, tier, tpool):
@@ -1122,7 +1160,7 @@ def _launch_tlc(ctx, d, tier, tpool):
     from verifkit import tlc
     fut = {}
     for label, kw, _ in _seq_configs(tier):
-        cfg = _cfg(d, label, marker=ctx.marker_mode, patch=ctx.patch_mode, nest=False, inv="", **kw)
+        cfg = _cfg(d, label, marker=ctx.marker_mode, classes=ctx.classes, patch=ctx.patch_mode, nest=False, inv="", **kw)
         fut[label] = tpool.submit(tlc.run_tlc, "PycCache.tla", cfg, workers=4, coverage=True, dump_dot=os.path.join(d, label))
     for inv in ("I1marked", "I1plain"):
         cfg = _cfg(d, "conc_" + inv, inv="INVARIANT %s\n" % inv, **_conc_kw(ctx))
@@ -1160,6 +1198,7 @@ def _probe_patch(rep, ctx, fut):
 
 def _r2_sequential(rep, ctx, d, pool, tier, rnd, fut):
     from verifkit import tlc
+    from verifkit.report import canon
     for label, kw, limit in _seq_configs(tier):
         dot = os.path.join(d, label)
         res = fut[label].result()
@@ -1170,7 +1209,7 @@ def _r2_sequential(rep, ctx, d, pool, tier, rnd, fut):
             rep.machinery(f"vacuous TLC run {label}: actions never taken: {zero}")
         g = tlc.parse_dot(dot + ".dot")
         macro = _macro_graph(g)
-        paths, total = _macro_paths(g, macro, rnd, limit)
+        paths, total = _macro_paths(g, macro, rnd, limit, ctx.stale if label == "seq1" else ())
         rep.add("run_sequences_in_model", total)
         rep.add("run_sequences_replayed", len(paths))
         behs = [{"kind": "seq", "steps": [s for s, _ in p]} for p in paths]
@@ -1184,6 +1223,13 @@ def _r2_sequential(rep, ctx, d, pool, tier, rnd, fut):
             ctx.traces.append((beh, log))
         if behs:
             rep.sample({"config": label, "run_sequence": behs[len(behs) // 2]["steps"]})
+    want = ctx.tables["want"]
+    shown = set(rep.violation_keys) | set(rep.known_hit)
+    for c1, c2 in ctx.stale:
+        k = canon({"written_under": facts(want[c1]), "read_under": facts(want[c2])})
+        if k not in shown:
+            rep.spec_drift(f"TLC predicts a stale reuse for run {c1} ; run {c2} (same marker, different AST key) but "
+                           f"no real run showed it")
 
 
 # ---- R2 concurrent ----------------------------------------------------------------------
@@ -1311,11 +1357,9 @@ def _r3_traces(rep, ctx, d, tier, rnd):
     # first trace first (the very first hooked run of this check, with beartype's lazy imports)
     head, rest = traces[:1], traces[1:]
     rnd.shuffle(rest)
-    if ctx.marker_mode == "v0230" and ctx.patch_mode == "unlocked":
-        cfg = "trace/PycCacheTrace.cfg"
-    else:
-        cfg = write_file(d, "PycCacheTrace_gen.cfg", TRACE_CFG % {
-            "foreign": ", ".join('"%s"' % f for f in FOREIGN_IDS), "marker": ctx.marker_mode, "patch": ctx.patch_mode})
+    cfg = write_file(d, "PycCacheTrace_gen.cfg", TRACE_CFG % {
+        "foreign": ", ".join('"%s"' % f for f in FOREIGN_IDS), "marker": ctx.marker_mode,
+        "classes": _classes(ctx.classes), "patch": ctx.patch_mode})
     dropped = 0
     for attempt in range(6):
         lines, meta, used = [], [], []
